@@ -404,6 +404,8 @@ def main(argv):
         res.ob('ANALYSIS', 'internal', False, 'internal error: %r' % (e,), key='ANALYSIS-INTERNAL')
     if facts is not None and getattr(facts, 'fallback_consts', None):
         res.extra['constants_not_found_spec_value_used'] = sorted(facts.fallback_consts)
+    if facts is not None and getattr(facts, 'frozen_links', None):
+        res.extra['constructor_only_fields_linked'] = facts.frozen_links
     from .core import load_known
     known_keys = {k.get('key') for k in load_known() if k.get('status') == 'known' and k.get('property') == prop}
     if not [v for v in res.violations() if v.key not in known_keys]:
